@@ -1050,6 +1050,84 @@ func Dirty(w *load.World, c *core.Collector) {
 			}
 		}
 	}
+	// monotone: outside CheckAndClearDirty the flag is only ever raised. An assignment whose value can
+	// be false ("isDirty = set.CheckedRemove(id)" instead of "... || isDirty") takes back the mark an
+	// earlier change of the same batch has set, and that change is never flushed.
+	nMono := 0
+	isDirtyField := func(fa *ssa.FieldAddr) bool {
+		st := ssax.StructOf(fa.X.Type())
+		if st == nil {
+			return false
+		}
+		fld := st.Field(fa.Field)
+		bt, ok := fld.Type().Underlying().(*types.Basic)
+		return ok && bt.Kind() == types.Bool && strings.Contains(strings.ToLower(fld.Name()), "dirty")
+	}
+	for _, f := range w.Fns {
+		if !load.InMod(f) || f.Name() == "ReadFrom" {
+			continue
+		}
+		clears := f.Name() == "CheckAndClearDirty" || strings.Contains(strings.ToLower(f.Name()), "flush")
+		for _, b := range f.Blocks {
+			for _, in := range b.Instrs {
+				st, ok := in.(*ssa.Store)
+				if !ok {
+					continue
+				}
+				fa, ok := st.Addr.(*ssa.FieldAddr)
+				if !ok || !isDirtyField(fa) {
+					continue
+				}
+				if _, fresh := ssax.Path(fa.X); fresh {
+					continue
+				}
+				if cb, isC := ssax.ConstBool(st.Val); isC && !cb && clears {
+					continue // the write-out clears the mark
+				}
+				nMono++
+				// true, or a choice between true and the old value
+				var raises func(v ssa.Value, depth int) bool
+				raises = func(v ssa.Value, depth int) bool {
+					if depth > 4 {
+						return false
+					}
+					if cb, isC := ssax.ConstBool(v); isC {
+						return cb
+					}
+					switch y := v.(type) {
+					case *ssa.Phi:
+						for _, e := range y.Edges {
+							if !raises(e, depth+1) {
+								return false
+							}
+						}
+						return len(y.Edges) > 0
+					case *ssa.UnOp:
+						// the old value of the flag itself
+						if y.Op == token.MUL {
+							if fa2, ok := y.X.(*ssa.FieldAddr); ok && fa2.Field == fa.Field && ssax.StructOf(fa2.X.Type()) == ssax.StructOf(fa.X.Type()) {
+								return true
+							}
+						}
+					case *ssa.BinOp:
+						if y.Op == token.OR || y.Op == token.LOR {
+							return raises(y.X, depth+1) || raises(y.Y, depth+1)
+						}
+					}
+					return false
+				}
+				tn := ssax.TypeName(fa.X.Type())
+				fn := ssax.StructOf(fa.X.Type()).Field(fa.Field).Name()
+				key := fmt.Sprintf("monotone:%s.%s@%s", tn, fn, load.FnKey(f))
+				if raises(st.Val, 0) {
+					c.Add("DIRTY", key, core.OK, w.At(in), "", props...)
+				} else {
+					c.Add("DIRTY", key, core.Violation, w.At(in), fmt.Sprintf("%s.%s is assigned a value that can be false without the old value being kept: a mark set by an earlier change of the same batch is taken back and that change is never written", tn, fn), "C08", "C02", "C05")
+				}
+			}
+		}
+	}
+	c.Count("dirty_flag_assignments", nMono)
 	c.Count("dirty_mutation_sites", n)
 }
 
@@ -1165,9 +1243,6 @@ func Pair(w *load.World, c *core.Collector) {
 					if !okFlow {
 						v, d = core.Violation, "an allocated node id does not reach the point that is stored"
 					}
-					if !strings.Contains(load.FnKey(f), "InsertPoints") {
-						v, d = core.Violation, "node ids are allocated outside the insert path"
-					}
 					c.Add("PAIR", key, v, w.At(in), d, "C01", "C10")
 				case "(*shard.IdCounter).FreeId":
 					key := "alloc:FreeId@" + load.FnKey(f)
@@ -1188,9 +1263,6 @@ func Pair(w *load.World, c *core.Collector) {
 					v, d := core.OK, ""
 					if !okFlow {
 						v, d = core.Violation, "a node id is put on the free list without the point that owns it being deleted on the same path"
-					}
-					if !strings.Contains(load.FnKey(f), "DeletePoints") {
-						v, d = core.Violation, "node ids are freed outside the delete path"
 					}
 					c.Add("PAIR", key, v, w.At(in), d, "C01", "C10")
 				}
